@@ -307,7 +307,7 @@ def modelPub (q : PubReq) : String := Id.run do
 
 structure SubReq where
   stack : List LSpec
-  subErr : Bool
+  subs : List Bool         -- one entry per Subscribe call: refused by the innermost subscriber? (at most one accepted)
   closes : List Bool       -- one entry per Close call: does the innermost subscriber's Close fail?
   n : Nat
   script : List Char
@@ -318,13 +318,13 @@ def parseSubReq (f : List String) (rec : List String) : Option SubReq :=
   match f with
   | [st, se, ce, n, sc, rd] => do
     let st ← parseStack st
-    let se ← parseBit se
+    let se ← parseBits se
     let ce ← parseBits ce
     let n ← n.toNat?
     let sc := if sc = "-" then [] else sc.toList
     let rd ← rd.toNat?
     let inner ← (recGet rec "inner").bind hexStr?
-    if sc.all (fun c => c = 'a' ∨ c = 'n' ∨ c = 'u' ∨ c = 'A' ∨ c = 'N') ∧ sc.length = n ∧ rd ≤ n ∧ 1 ≤ ce.length ∧ ce.length ≤ 3 ∧ st.all (fun l => match l with | .D _ _ => false | _ => true) then
+    if sc.all (fun c => c = 'a' ∨ c = 'n' ∨ c = 'u' ∨ c = 'A' ∨ c = 'N') ∧ sc.length = n ∧ rd ≤ n ∧ 1 ≤ ce.length ∧ ce.length ≤ 3 ∧ 1 ≤ se.length ∧ se.length ≤ 3 ∧ (se.filter (!·)).length ≤ 1 ∧ st.all (fun l => match l with | .D _ _ => false | _ => true) then
       pure ⟨st, se, ce, n, sc, rd, inner⟩
     else none
   | _ => none
@@ -353,7 +353,8 @@ def modelSub (q : SubReq) : String :=
   | some stack =>
     let cl := closeSubSeq stack q.closes 0
     let closeTok := closeToks cl.1 cl.2
-    if (subscribeErr stack q.subErr).isSome then s!"sub={errTok (subscribeErr stack q.subErr)}|recv=-|A=-|close={closeTok}|chan=-|B=-" else
+    let subTok := ",".intercalate ((subscribeSeq stack q.subs).map errTok)
+    if (subscribeSeq stack q.subs).all (·.isSome) then s!"sub={subTok}|recv=-|A=-|close={closeTok}|chan=-|B=-" else
     let msgs : List Msg := (List.range q.n).map (fun i => { id := i, md := [("k", .raw "v")] })
     let (got, ws) := subscribeRun q.inner stack msgs q.reads
     let recv := got.map (fun m =>
@@ -361,7 +362,7 @@ def modelSub (q : SubReq) : String :=
       s!"{m.id}:{strHex (rawOf (mget m.md "path"))}:s:{st}")
     let a := countLines ((subCounts (settleOf q.script false) ws).map subKey)
     let b := countLines ((subCounts (settleOf q.script true) ws).map subKey)
-    s!"sub=ok|recv={sepOr recv ","}|A={a}|close={closeTok}|chan=closed|B={b}"
+    s!"sub={subTok}|recv={sepOr recv ","}|A={a}|close={closeTok}|chan=closed|B={b}"
 
 /-! ### router -/
 
@@ -612,12 +613,17 @@ def monitorSub (q : SubReq) (obs : String) : String := Id.run do
   let some chanS := section? secs "chan" | return "bad-op"
   -- every Close call reaches the wrapped subscriber once and returns that call's own result
   let wantClose := ",".intercalate (q.closes.map (fun b => if b then "e:close" else "ok")) ++ s!"/{q.closes.length}"
-  if closeS ≠ wantClose then return "violated:close_each_call_passes"
-  if q.subErr then
-    if subS ≠ "e:sub" ∨ recvS ≠ "-" then return "violated:subscribe_error_passes"
+  -- every call returns (a call the harness' watchdog had to give up on is reported as `stuck`)
+  if (subS.splitOn ",").contains "stuck" then return "violated:subscribe_did_not_return"
+  if (((closeS.splitOn "/").headD "").splitOn ",").contains "stuck" then return "violated:close_did_not_return"
+  -- every Subscribe call returns the wrapped subscriber's own answer for that call
+  if subS ≠ ",".intercalate (q.subs.map (fun b => if b then "e:sub" else "ok")) then return "violated:subscribe_error_passes"
+  if q.subs.all (·) then
+    if recvS ≠ "-" then return "violated:subscribe_error_passes"
     if aS ≠ "-" ∨ bS ≠ "-" then return "violated:metrics_subscribe_once"
+    if closeS ≠ wantClose then return "violated:close_each_call_passes"
     return "ok"
-  if subS ≠ "ok" then return "violated:subscribe_error_passes"
+  if closeS ≠ wantClose then return "violated:close_each_call_passes"
   if chanS ≠ "closed" then return "violated:close_closes_output"
   let recv := splitOr recvS ","
   if recv.length ≠ q.reads then return "violated:every_message_once"
